@@ -124,6 +124,10 @@ pub struct Case {
     probes: Vec<Probe>,
     /// real part: a history of filesystem operations watched by a real cache (empty = synthetic only)
     real: Vec<RealOp>,
+    /// real part: the very first activity under the freshly built watcher is one single-notification operation
+    /// (otherwise the generated history starts right away)
+    #[serde(default)]
+    first_probe: Option<u8>,
 }
 
 #[derive(Debug, Clone, Serialize, Deserialize)]
@@ -132,6 +136,8 @@ pub enum RealOp {
     Delete { file: u16 },
     Rename { file: u16, name: u8 },
     MkDir { dir: u16, name: u8 },
+    /// creates an empty file (one single notification, unlike a write)
+    Touch { dir: u16, name: u8 },
 }
 
 fn entry_key(e: &OwnedDirEntry) -> (bool, String, String) {
@@ -500,6 +506,30 @@ fn wait_until(mut f: impl FnMut() -> bool, secs: u64) -> bool {
     f()
 }
 
+/// Do filesystem notifications work in this environment at all? Decided once per process with a `notify`
+/// watcher of the harness itself, independent of the crate under test.
+fn inotify_works(base: &Path) -> bool {
+    static WORKS: std::sync::OnceLock<bool> = std::sync::OnceLock::new();
+    *WORKS.get_or_init(|| {
+        use notify::Watcher;
+        let root = base.join("selftest");
+        if std::fs::create_dir_all(&root).is_err() {
+            return false;
+        }
+        let (tx, rx) = std::sync::mpsc::channel();
+        let Ok(mut w) = notify::recommended_watcher(move |e: notify::Result<notify::Event>| {
+            let _ = tx.send(e.is_ok());
+        }) else {
+            return false;
+        };
+        if w.watch(&root, notify::RecursiveMode::Recursive).is_err() {
+            return false;
+        }
+        let _ = std::fs::write(root.join("probe.txt"), "1");
+        matches!(rx.recv_timeout(Duration::from_secs(10)), Ok(true))
+    })
+}
+
 fn disk_listing(dir: &Path) -> Vec<String> {
     // stems of the files with extension txt or x directly inside
     let mut v: BTreeSet<String> = BTreeSet::new();
@@ -544,22 +574,21 @@ impl C12 {
         for (id, _) in &dirs {
             let _ = cache.load_dir::<Txt>(id);
         }
-        // inotify self-test: does a change reach the cache at all?
         std::thread::sleep(Duration::from_millis(50));
-        let before = sentinel.last_reload_id();
-        std::fs::write(root.join("zz_sentinel.txt"), "1").expect("write");
-        if !wait_until(
-            || {
-                cache.hot_reload();
-                sentinel.last_reload_id() != before
-            },
-            5,
-        ) {
+        let mut ops = c.real.clone();
+        if !inotify_works(base) {
             // no filesystem notifications in this environment: the real part cannot run
+            if std::env::var("VERIF_TRACE").is_ok() {
+                eprintln!("real part skipped: a notify watcher of the harness saw no notification");
+            }
             return false;
         }
+        if let Some(k) = c.first_probe {
+            // nothing has happened under this watcher yet: the first notification it gets is this one
+            ops.insert(0, if k % 3 == 2 { RealOp::Delete { file: k as u16 / 3 } } else { RealOp::Touch { dir: (k % 3) as u16, name: k / 3 } });
+        }
         let mut version = 1u32;
-        for (sn, op) in c.real.iter().enumerate() {
+        for (sn, op) in ops.iter().enumerate() {
             let files_now: Vec<PathBuf> = dirs.iter().flat_map(|(_, p)| std::fs::read_dir(p).into_iter().flatten().flatten().map(|e| e.path()).filter(|p| p.is_file() && p.file_name().map_or(false, |n| n != "zz_sentinel.txt"))).collect();
             let desc;
             match op {
@@ -585,6 +614,12 @@ impl C12 {
                     let to = p.with_file_name(format!("{}.txt", NAMES[*name as usize % NAMES.len()]));
                     desc = format!("rename {p:?} -> {to:?}");
                     let _ = std::fs::rename(p, &to);
+                }
+                RealOp::Touch { dir, name } => {
+                    let (_, d) = &dirs[*dir as usize % dirs.len()];
+                    let p = d.join(format!("{}.txt", NAMES[*name as usize % NAMES.len()]));
+                    desc = format!("create empty file {p:?}");
+                    let _ = std::fs::OpenOptions::new().write(true).create_new(true).open(&p);
                 }
                 RealOp::MkDir { dir, name } => {
                     let (pid, d) = dirs[*dir as usize % dirs.len()].clone();
@@ -623,6 +658,9 @@ impl C12 {
                 let expect: Vec<String> = expect.iter().filter(|s| !(id.is_empty() && *s == "zz_sentinel")).map(|s| if id.is_empty() { s.clone() } else { format!("{id}.{s}") }).collect();
                 if let Some(h) = cache.get_cached::<assets_manager::Directory<Txt>>(id) {
                     let got: Vec<String> = h.read().ids().map(|s| s.to_string()).filter(|s| s != "zz_sentinel").collect();
+                    if std::env::var("VERIF_TRACE").is_ok() {
+                        eprintln!("real step {sn} ({desc}): dir {id:?} handle {got:?} disk {expect:?}");
+                    }
                     if got != expect {
                         let sig = if id.is_empty() {
                             "real-root-listing-stale"
@@ -660,7 +698,7 @@ impl Prop for C12 {
          (notification kind: create file/folder/any, modify data/metadata/any, rename from/to/both, remove file/folder, any, access, other) x (path spelling: plain, with '.', with 'sibling/..'); removals are handled with the object already gone. \
          Each probe is fed to the crate's real notify handler (hook) and the events it sends are compared with: per root containing the path, the entry whose path_of is that path (right id, extension, kind; for a vanished extension-less path without hint either kind) \
          plus, for create/rename/remove, its parent directory (the root being Directory(\"\")); nothing for access/other/outside/inexpressible paths, and a later event is still delivered. Round trip id_of_path(path_of(e)) == e for every entry, path_of injective. \
-         Enumerated part: every entry of a fixed tree x every notification kind. Real part: generated write/delete/rename/mkdir histories on a temp dir watched by a real AssetCache<FileSystem>; after each step (sentinel file touched last) every directory handle equals the disk and a two-extension asset equals a fresh load. \
+         Enumerated part: every entry of a fixed tree x every notification kind. Real part: generated write/delete/rename/mkdir histories on a temp dir watched by a real AssetCache<FileSystem>; after each step (sentinel file touched last) every directory handle equals the disk and a two-extension asset equals a fresh load; in half of them the very first activity under the freshly built watcher is a single-notification operation (create an empty file / delete). \
          non-trivial = a probe on the root or a root-level entry, a rename/remove kind, a '..' spelling, several roots, or a real history; distinct = different canonical JSON"
             .into()
     }
@@ -702,13 +740,19 @@ impl Prop for C12 {
             3 => any::<u16>().prop_map(|file| RealOp::Delete { file }),
             2 => (any::<u16>(), any::<u8>()).prop_map(|(file, name)| RealOp::Rename { file, name }),
             1 => (any::<u16>(), any::<u8>()).prop_map(|(dir, name)| RealOp::MkDir { dir, name }),
+            2 => (any::<u16>(), any::<u8>()).prop_map(|(dir, name)| RealOp::Touch { dir, name }),
         ];
-        let real_w: u32 = if tier == Tier::Quick { 4 } else { 3 };
+        let real_w: u32 = if tier == Tier::Quick { 6 } else { 4 };
         let real = prop_oneof![
             100 - real_w => Just(Vec::new()),
             real_w => prop::collection::vec(real_op, 3..10),
         ];
-        (trees::tree_strategy(10), roots, prop::collection::vec(probe, 1..12), real).prop_map(|(tree, roots, probes, real)| to_case(&Case { tree, roots, probes, real })).boxed()
+        (trees::tree_strategy(10), roots, prop::collection::vec(probe, 1..12), real, prop_oneof![1 => Just(None), 1 => any::<u8>().prop_map(Some)])
+            .prop_map(|(tree, roots, probes, real, first_probe)| {
+                let first_probe = if real.is_empty() { None } else { first_probe };
+                to_case(&Case { tree, roots, probes, real, first_probe })
+            })
+            .boxed()
     }
 
     fn enumerate(&self, _tier: Tier) -> Vec<Value> {
@@ -728,7 +772,7 @@ impl Prop for C12 {
             for i in 0..m.dirs.len() as u16 {
                 probes.push(Probe { target: Target::Dir(i), kind: k, spelling: Spelling::Plain });
             }
-            out.push(to_case(&Case { tree: tree.clone(), roots: Roots::One, probes, real: Vec::new() }));
+            out.push(to_case(&Case { tree: tree.clone(), roots: Roots::One, probes, real: Vec::new(), first_probe: None }));
         }
         out
     }
@@ -773,6 +817,9 @@ impl Prop for C12 {
         }
         if real_ran {
             out.label("real-history");
+            if c.first_probe.is_some() {
+                out.label("real-first-notification-is-the-probe");
+            }
         }
         out
     }
@@ -817,5 +864,5 @@ pub fn decode(u: &mut arbitrary::Unstructured) -> arbitrary::Result<Value> {
         };
         probes.push(Probe { target, kind, spelling });
     }
-    Ok(to_case(&Case { tree: TreeSpec { entries }, roots, probes, real: Vec::new() }))
+    Ok(to_case(&Case { tree: TreeSpec { entries }, roots, probes, real: Vec::new(), first_probe: None }))
 }
